@@ -169,4 +169,5 @@ def meta(tier):
                             "states 1,2 accept finite languages x 3 databases",
                    "thorough": "6 packs on the two-state tables, 4 packs on the four-state tables, all 2934 three-state tables x 3 databases"}[tier],
     })
+    m["bounds"] = str(m.get("bounds", "")) + " || end-to-end groups of this run: " + e2e.describe_groups(groups(tier))
     return m
